@@ -37,21 +37,127 @@ theorem internTerm_spec (ts : List Term) (t : Term) (hinj : KeyInj (ts ++ [t])) 
     have := hinj ts[i] (by simp) t (by simp) hk
     rw [List.getElem?_eq_getElem hi, this]
 
-theorem analyzeCond_spec (f : Term → Bool) (e : AttrExp) :
+/-! ### `joinConds`, `consHead` -/
+theorem joinConds_eval_and (F : Nat → Bool) : ∀ (cs : List Cond), cs ≠ [] →
+    (joinConds .and cs).eval F = (cs.map (Cond.eval F)).all id
+  | [], h => absurd rfl h
+  | [c], _ => by simp [joinConds]
+  | c :: c' :: cs, _ => by
+    have ih := joinConds_eval_and F (c' :: cs) (by simp)
+    simp only [joinConds, Cond.eval, bop, ih]
+    simp
+
+theorem joinConds_eval_or (F : Nat → Bool) : ∀ (cs : List Cond), cs ≠ [] →
+    (joinConds .or cs).eval F = (cs.map (Cond.eval F)).any id
+  | [], h => absurd rfl h
+  | [c], _ => by simp [joinConds]
+  | c :: c' :: cs, _ => by
+    have ih := joinConds_eval_or F (c' :: cs) (by simp)
+    simp only [joinConds, Cond.eval, bop, ih]
+    simp
+
+theorem joinConds_bounded (op : BoolOp) (n : Nat) : ∀ (cs : List Cond), cs ≠ [] → (∀ c ∈ cs, c.bounded n) →
+    (joinConds op cs).bounded n
+  | [], h, _ => absurd rfl h
+  | [c], _, hb => by simpa [joinConds] using hb c (by simp)
+  | c :: c' :: cs, _, hb => by
+    simp only [joinConds, Cond.bounded]
+    exact ⟨hb c (by simp), joinConds_bounded op n (c' :: cs) (by simp) (fun x hx => hb x (List.mem_cons_of_mem _ hx))⟩
+
+/-- groups as the loop of `analyzeCond` leaves them: at least one, none empty -/
+def GroupsOk {α} (gs : List (List α)) : Prop := gs ≠ [] ∧ ∀ g ∈ gs, g ≠ []
+
+theorem consHead_ok {α} (h : α) (op : BoolOp) (gs : List (List α)) (hg : GroupsOk gs) : GroupsOk (consHead h op gs) := by
+  obtain ⟨h1, h2⟩ := hg
+  cases gs with
+  | nil => exact absurd rfl h1
+  | cons g gs' =>
+    cases op <;> simp only [consHead] <;> refine ⟨by simp, ?_⟩ <;> intro x hx <;>
+      simp only [List.mem_cons] at hx
+    · rcases hx with rfl | hx
+      · simp
+      · exact h2 x (by simp [hx])
+    · rcases hx with rfl | hx
+      · simp
+      · exact h2 x (by simpa using hx)
+    · rcases hx with rfl | hx
+      · simp
+      · exact h2 x (by simpa using hx)
+
+theorem consHead_map {α β} (φ : α → β) (h : α) (op : BoolOp) (gs : List (List α)) :
+    (consHead h op gs).map (fun g => g.map φ) = consHead (φ h) op (gs.map (fun g => g.map φ)) := by
+  cases gs <;> cases op <;> simp [consHead]
+
+theorem consHead_mem {α} (h : α) (op : BoolOp) (gs : List (List α)) (P : α → Prop) (hh : P h)
+    (hg : ∀ g ∈ gs, ∀ x ∈ g, P x) : ∀ g ∈ consHead h op gs, ∀ x ∈ g, P x := by
+  cases gs with
+  | nil =>
+    cases op <;> simp only [consHead] <;> intro g hg' x hx <;> simp only [List.mem_singleton] at hg' <;> subst hg' <;>
+      simp only [List.mem_singleton] at hx <;> subst hx <;> exact hh
+  | cons g0 gs' =>
+    cases op <;> simp only [consHead] <;> intro g hg' x hx <;> simp only [List.mem_cons] at hg'
+    · rcases hg' with rfl | hg'
+      · simp only [List.mem_cons] at hx
+        rcases hx with rfl | hx
+        · exact hh
+        · exact hg g0 (by simp) x hx
+      · exact hg g (by simp [hg']) x hx
+    · rcases hg' with rfl | hg'
+      · simp only [List.mem_singleton] at hx; subst hx; exact hh
+      · exact hg g (by simpa using hg') x hx
+    · rcases hg' with rfl | hg'
+      · simp only [List.mem_singleton] at hx; subst hx; exact hh
+      · exact hg g (by simpa using hg') x hx
+
+theorem any_congr_mem {α} (p q : α → Bool) : ∀ (l : List α), (∀ x ∈ l, p x = q x) → l.any p = l.any q
+  | [], _ => rfl
+  | x :: xs, h => by
+    simp only [List.any_cons, h x (by simp), any_congr_mem p q xs (fun y hy => h y (List.mem_cons_of_mem _ hy))]
+
+theorem joinGroups_eval (F : Nat → Bool) (gs : List (List Cond)) (hg : GroupsOk gs) :
+    (joinGroups gs).eval F = holdsG (gs.map (fun g => g.map (Cond.eval F))) := by
+  obtain ⟨h1, h2⟩ := hg
+  unfold joinGroups holdsG
+  rw [joinConds_eval_or F _ (by simpa using h1)]
+  simp only [List.map_map, List.any_map]
+  apply any_congr_mem
+  intro g hgm
+  simp only [Function.comp, id]
+  rw [joinConds_eval_and F g (h2 g hgm)]
+
+theorem joinGroups_bounded (n : Nat) (gs : List (List Cond)) (hg : GroupsOk gs) (hb : ∀ g ∈ gs, ∀ c ∈ g, c.bounded n) :
+    (joinGroups gs).bounded n := by
+  obtain ⟨h1, h2⟩ := hg
+  unfold joinGroups
+  apply joinConds_bounded _ _ _ (by simpa using h1)
+  intro c hc
+  obtain ⟨g, hgm, rfl⟩ := List.mem_map.mp hc
+  exact joinConds_bounded _ _ g (h2 g hgm) (hb g hgm)
+
+/-- the loop of `analyzeCond`: the heads, interned left to right, in the groups of the TraceQL reading -/
+theorem analyzeChain_spec (f : Term → Bool) (e : AttrExp) :
     ∀ (ts0 : List Term), KeyInj (ts0 ++ termsOf e) →
-    ∃ extra, (analyzeCond ts0 e).1 = ts0 ++ extra ∧ (∀ u ∈ extra, u ∈ termsOf e) ∧
-      (analyzeCond ts0 e).2.bounded (ts0 ++ extra).length ∧
-      ∀ more, (analyzeCond ts0 e).2.eval (fun i => (((ts0 ++ extra ++ more)[i]?).map f).getD false) = expHolds f e := by
+    ∃ extra, (analyzeChain ts0 e).1 = ts0 ++ extra ∧ (∀ u ∈ extra, u ∈ termsOf e) ∧
+      GroupsOk (analyzeChain ts0 e).2 ∧
+      (∀ g ∈ (analyzeChain ts0 e).2, ∀ c ∈ g, c.bounded (ts0 ++ extra).length) ∧
+      ∀ more, (analyzeChain ts0 e).2.map (fun g => g.map (Cond.eval (fun i => (((ts0 ++ extra ++ more)[i]?).map f).getD false))) =
+        expGroups f e := by
   induction e with
   | leaf t =>
     intro ts0 hinj
     obtain ⟨extra, h1, h2, h3⟩ := internTerm_spec ts0 t (by simpa [termsOf] using hinj)
-    refine ⟨extra, by simp [analyzeCond, h1], ?_, ?_, ?_⟩
+    refine ⟨extra, by simp [analyzeChain, h1], ?_, ?_, ?_, ?_⟩
     · intro u hu; simp [termsOf, h2 u hu]
-    · simp only [analyzeCond, Cond.bounded]
+    · simp [analyzeChain, GroupsOk]
+    · intro g hg c hc
+      simp only [analyzeChain, List.mem_singleton] at hg
+      subst hg
+      simp only [List.mem_singleton] at hc
+      subst hc
+      simp only [Cond.bounded]
       exact (List.getElem?_eq_some_iff.mp h3).1
     · intro more
-      simp only [analyzeCond, Cond.eval, expHolds]
+      simp only [analyzeChain, List.map_cons, List.map_nil, Cond.eval, expGroups]
       have : (ts0 ++ extra ++ more)[(internTerm ts0 t).2]? = some t := by
         have hlt : (internTerm ts0 t).2 < (ts0 ++ extra).length := (List.getElem?_eq_some_iff.mp h3).1
         rw [List.getElem?_append_left hlt]; exact h3
@@ -59,7 +165,17 @@ theorem analyzeCond_spec (f : Term → Bool) (e : AttrExp) :
       simp [this]
   | paren e ih =>
     intro ts0 hinj
-    simpa [analyzeCond, termsOf, expHolds] using ih ts0 (by simpa [termsOf] using hinj)
+    obtain ⟨extra, h1, h2, h3, h4, h5⟩ := ih ts0 (by simpa [termsOf] using hinj)
+    refine ⟨extra, by simp [analyzeChain, h1], by simpa [termsOf] using h2, by simp [analyzeChain, GroupsOk], ?_, ?_⟩
+    · intro g hg c hc
+      simp only [analyzeChain, List.mem_singleton] at hg
+      subst hg
+      simp only [List.mem_singleton] at hc
+      subst hc
+      exact joinGroups_bounded _ _ h3 h4
+    · intro more
+      simp only [analyzeChain, List.map_cons, List.map_nil, expGroups]
+      rw [joinGroups_eval _ _ h3, h5 more]
   | leafOp t op tail ih =>
     intro ts0 hinj
     have hinj1 : KeyInj (ts0 ++ [t]) := by
@@ -83,28 +199,35 @@ theorem analyzeCond_spec (f : Term → Bool) (e : AttrExp) :
         · exact Or.inl hb
         · exact Or.inr (Or.inl (h2 b hb))
         · exact Or.inr (Or.inr hb)
-    obtain ⟨ex2, g1, g2, g3, g4⟩ := ih (ts0 ++ ex1) hinj2
+    obtain ⟨ex2, g1, g2, g3, g4, g5⟩ := ih (ts0 ++ ex1) hinj2
     have hlt : (internTerm ts0 t).2 < (ts0 ++ ex1).length := (List.getElem?_eq_some_iff.mp h3).1
-    refine ⟨ex1 ++ ex2, ?_, ?_, ?_, ?_⟩
-    · simp [analyzeCond, h1, g1, List.append_assoc]
+    have hlen : (ts0 ++ ex1 ++ ex2).length = (ts0 ++ (ex1 ++ ex2)).length := by simp [List.append_assoc]
+    refine ⟨ex1 ++ ex2, ?_, ?_, ?_, ?_, ?_⟩
+    · simp [analyzeChain, h1, g1, List.append_assoc]
     · intro u hu
       simp only [List.mem_append] at hu
       rcases hu with hu | hu
       · simp [termsOf, h2 u hu]
       · simp [termsOf, g2 u hu]
-    · simp only [analyzeCond, h1, Cond.bounded]
-      refine ⟨?_, ?_⟩
-      · simp only [List.length_append] at hlt ⊢; omega
-      · simpa [List.append_assoc] using g3
+    · simp only [analyzeChain, h1]
+      exact consHead_ok _ _ _ g3
+    · simp only [analyzeChain, h1]
+      apply consHead_mem
+      · simp only [Cond.bounded, List.length_append] at hlt ⊢; omega
+      · intro g hg c hc
+        have := g4 g hg c hc
+        rwa [hlen] at this
     · intro more
-      simp only [analyzeCond, h1, Cond.eval, expHolds]
+      simp only [analyzeChain, h1, expGroups]
+      rw [consHead_map]
       have e1 : (ts0 ++ (ex1 ++ ex2) ++ more)[(internTerm ts0 t).2]? = some t := by
         rw [show ts0 ++ (ex1 ++ ex2) ++ more = (ts0 ++ ex1) ++ (ex2 ++ more) by simp [List.append_assoc]]
         rw [List.getElem?_append_left hlt]; exact h3
-      have e2 := g4 more
+      have e2 := g5 more
       rw [show ts0 ++ ex1 ++ ex2 ++ more = ts0 ++ (ex1 ++ ex2) ++ more by simp [List.append_assoc]] at e2
-      simp only [List.append_assoc] at e1 e2 ⊢
-      simp [e1, e2]
+      rw [e2]
+      simp only [List.append_assoc] at e1 ⊢
+      simp [Cond.eval, e1]
   | parenOp e op tail ihe iht =>
     intro ts0 hinj
     have hinj1 : KeyInj (ts0 ++ termsOf e) := by
@@ -114,7 +237,7 @@ theorem analyzeCond_spec (f : Term → Bool) (e : AttrExp) :
       rcases hx with hx | hx
       · exact Or.inl hx
       · exact Or.inr (Or.inl hx)
-    obtain ⟨ex1, h1, h2, h3, h4⟩ := ihe ts0 hinj1
+    obtain ⟨ex1, h1, h2, h3, h4, h5⟩ := ihe ts0 hinj1
     have hinj2 : KeyInj ((ts0 ++ ex1) ++ termsOf tail) := by
       intro a ha b hb
       refine hinj a ?_ b ?_
@@ -128,24 +251,43 @@ theorem analyzeCond_spec (f : Term → Bool) (e : AttrExp) :
         · exact Or.inl hb
         · exact Or.inr (Or.inl (h2 b hb))
         · exact Or.inr (Or.inr hb)
-    obtain ⟨ex2, g1, g2, g3, g4⟩ := iht (ts0 ++ ex1) hinj2
-    refine ⟨ex1 ++ ex2, ?_, ?_, ?_, ?_⟩
-    · simp [analyzeCond, h1, g1, List.append_assoc]
+    obtain ⟨ex2, g1, g2, g3, g4, g5⟩ := iht (ts0 ++ ex1) hinj2
+    have hlen : (ts0 ++ ex1 ++ ex2).length = (ts0 ++ (ex1 ++ ex2)).length := by simp [List.append_assoc]
+    refine ⟨ex1 ++ ex2, ?_, ?_, ?_, ?_, ?_⟩
+    · simp [analyzeChain, h1, g1, List.append_assoc]
     · intro u hu
       simp only [List.mem_append] at hu
       rcases hu with hu | hu
       · simp [termsOf, h2 u hu]
       · simp [termsOf, g2 u hu]
-    · simp only [analyzeCond, h1, Cond.bounded]
-      refine ⟨Cond.bounded_mono (by simp) _ h3, ?_⟩
-      simpa [List.append_assoc] using g3
+    · simp only [analyzeChain, h1]
+      exact consHead_ok _ _ _ g3
+    · simp only [analyzeChain, h1]
+      apply consHead_mem
+      · exact Cond.bounded_mono (by simp) _ (joinGroups_bounded _ _ h3 h4)
+      · intro g hg c hc
+        have := g4 g hg c hc
+        rwa [hlen] at this
     · intro more
-      simp only [analyzeCond, h1, Cond.eval, expHolds]
-      have e1 := h4 (ex2 ++ more)
+      simp only [analyzeChain, h1, expGroups]
+      rw [consHead_map]
+      have e1 := h5 (ex2 ++ more)
       rw [show ts0 ++ ex1 ++ (ex2 ++ more) = ts0 ++ (ex1 ++ ex2) ++ more by simp [List.append_assoc]] at e1
-      have e2 := g4 more
+      have e2 := g5 more
       rw [show ts0 ++ ex1 ++ ex2 ++ more = ts0 ++ (ex1 ++ ex2) ++ more by simp [List.append_assoc]] at e2
-      simp only [List.append_assoc] at e1 e2 ⊢
-      simp [e1, e2]
+      rw [e2, joinGroups_eval _ _ h3, e1]
+
+theorem analyzeCond_spec (f : Term → Bool) (e : AttrExp) :
+    ∀ (ts0 : List Term), KeyInj (ts0 ++ termsOf e) →
+    ∃ extra, (analyzeCond ts0 e).1 = ts0 ++ extra ∧ (∀ u ∈ extra, u ∈ termsOf e) ∧
+      (analyzeCond ts0 e).2.bounded (ts0 ++ extra).length ∧
+      ∀ more, (analyzeCond ts0 e).2.eval (fun i => (((ts0 ++ extra ++ more)[i]?).map f).getD false) = expHolds f e := by
+  intro ts0 hinj
+  obtain ⟨extra, h1, h2, h3, h4, h5⟩ := analyzeChain_spec f e ts0 hinj
+  refine ⟨extra, by simpa [analyzeCond] using h1, h2, ?_, ?_⟩
+  · simp only [analyzeCond]; exact joinGroups_bounded _ _ h3 h4
+  · intro more
+    simp only [analyzeCond, expHolds]
+    rw [joinGroups_eval _ _ h3, h5 more]
 
 end Qryn.TraceQL
